@@ -32,7 +32,7 @@ def run_property(pid, tier, seed, only_key=None):
             mod = importlib.import_module('sa.rules.%s' % pid.lower())
         except ImportError as e:
             if 'sa.rules' in str(e):
-                raise core.AnalysisError('property %s has no checker (not implemented, fail-closed)' % pid)
+                raise core.ToolError('property %s has no checker (not implemented, fail-closed)' % pid)
             raise
         from sa import context
         ctx = context.Context(core.REPO)
@@ -41,7 +41,19 @@ def run_property(pid, tier, seed, only_key=None):
         shared_py.init_globals(ctx.py)
         from sa import reviewed
         ledger.reviewed = reviewed.Reviewed(ctx.py)
-        rules_run = mod.run(ctx, ledger, tier)
+        try:
+            rules_run = mod.run(ctx, ledger, tier)
+        except core.ToolError:
+            raise
+        except core.AnalysisError as e:
+            # a rule could not make its structural argument on this tree (anchor vanished, shape not recognisable): the
+            # obligation it stands for is not discharged. Reported like any other undischarged obligation.
+            import re as _re
+            key = _re.sub(r'\s+', ' ', str(e))[:160]
+            ledger.bad('E0.argument-lost', key, pid, 'the structural argument of a rule of %s cannot be made on this tree: %s '
+                       '(the code it is anchored in was restructured or removed; the property is not established until the rule is '
+                       're-read against the new code)' % (pid, e), '')
+            rules_run = sorted(set(o.rule for o in ledger.obligations))
         ledger.analysed.update(ctx.inventory())
         if only_key is not None:
             hits = [o for o in ledger.obligations if (o.rule, o.key) == only_key]
@@ -68,7 +80,7 @@ def run_property(pid, tier, seed, only_key=None):
                              'self-test %s: %s' % (r['kind'], r.get('error') or r.get('results')), r.get('note', ''))
             failed = [r['id'] for r in res if not r.get('ok')]
             if failed:
-                raise core.AnalysisError('the checker failed its own self-test for %s (mutant not reported / benign variant '
+                raise core.ToolError('the checker failed its own self-test for %s (mutant not reported / benign variant '
                                          'changed the verdict): %s' % (pid, ', '.join(failed)))
         return core.finish(ledger, tier, seed, t0, rules_run, meta['explanation'], props.TRUSTED_BASE,
                            meta['not_decided'])
